@@ -98,6 +98,41 @@ theorem regenerate_enabled {r : RecInfo} {o : SideOpts} {x y : Sideloaded} (he :
 
 end SideOpts
 
+/-! ### annotate_cds_features reaches every stored CDSResults, inside or outside protoclusters -/
+
+theorem updState_keys (m : List (String × CdsState)) (name : String) (f : CdsState → CdsState) :
+    name ∈ (updState m name f).map (·.1) ∧ ∀ k ∈ m.map (·.1), k ∈ (updState m name f).map (·.1) := by
+  unfold updState
+  split
+  · rename_i h
+    have hkeys : (m.map fun p => if p.1 == name then (p.1, f p.2) else p).map (·.1) = m.map (·.1) := by
+      rw [List.map_map]
+      apply List.map_congr_left
+      intro p _
+      simp only [Function.comp]
+      split <;> rfl
+    rw [hkeys]
+    refine ⟨?_, fun k hk => hk⟩
+    simp only [List.any_eq_true, beq_iff_eq] at h
+    obtain ⟨p, hp, hn⟩ := h
+    exact List.mem_map.mpr ⟨p, hp, hn⟩
+  · refine ⟨by simp, fun k hk => ?_⟩
+    rw [List.map_append]
+    exact List.mem_append_left _ hk
+
+theorem foldl_updState_keys (tool : String) : ∀ (l : List CdsRes) (m : List (String × CdsState)),
+    (∀ k ∈ m.map (·.1), k ∈ (l.foldl (fun m c => updState m c.cdsName (fun st => c.annotate tool st)) m).map (·.1))
+    ∧ ∀ c ∈ l, c.cdsName ∈ (l.foldl (fun m c => updState m c.cdsName (fun st => c.annotate tool st)) m).map (·.1)
+  | [], m => ⟨fun k hk => hk, fun c hc => by cases hc⟩
+  | c :: rest, m => by
+    have h1 := updState_keys m c.cdsName (fun st => c.annotate tool st)
+    have ih := foldl_updState_keys tool rest (updState m c.cdsName (fun st => c.annotate tool st))
+    simp only [List.foldl_cons]
+    refine ⟨fun k hk => ih.1 k (h1.2 k hk), fun c' hc' => ?_⟩
+    rcases List.mem_cons.mp hc' with rfl | hr
+    · exact ih.1 _ h1.1
+    · exact ih.2 c' hr
+
 /-! ### PFAM version guard -/
 
 theorem pfamKeepAllowed_eq (m : HmmerModule) (o : PfamOpts) (v : String) :
